@@ -49,7 +49,21 @@ func scPatches(env *composerEnv, kind string, ver int) []interface{} {
 			p.Ops = []CJOp{{Op: "add", Path: CPath{Name: 1}, From: CPath{Name: 1}, Val: CVal{T: "int", V: ver}}}
 		}
 
-		return env.patchJSON(&p)
+		g := env.patchJSON(&p)
+
+		// a second key that has no purposes member (a general-purpose key)
+		plain := env.keyJSON(CEnt{3, ver})
+		delete(plain, "purposes")
+
+		switch a {
+		case "add-public-keys":
+			g["publicKeys"] = append(g["publicKeys"].([]interface{}), plain)
+		case "replace":
+			d := g["document"].(map[string]interface{})
+			d["publicKeys"] = append(d["publicKeys"].([]interface{}), plain)
+		}
+
+		return g
 	}
 
 	if kind == "mixed" {
@@ -266,20 +280,31 @@ func selfcertReplay(args []string) {
 			first := l[0].(map[string]interface{})
 			target := first
 
+			pick := func(arr []interface{}) {
+				// the entry that lacks the optional member, else the first one
+				target = arr[0].(map[string]interface{})
+
+				for _, x := range arr {
+					if m := x.(map[string]interface{}); m["publicKeyJwk"] != nil && m["purposes"] == nil {
+						target = m
+					}
+				}
+			}
+
 			for _, name := range []string{"publicKeys", "services"} {
 				if arr, ok := first[name].([]interface{}); ok && len(arr) > 0 {
-					target = arr[0].(map[string]interface{})
+					pick(arr)
 				}
 			}
 
 			if doc, ok := first["document"].(map[string]interface{}); ok {
 				if arr, ok := doc["publicKeys"].([]interface{}); ok && len(arr) > 0 {
-					target = arr[0].(map[string]interface{})
+					pick(arr)
 				}
 			}
 
 			if _, isKey := target["publicKeyJwk"]; isKey {
-				target["purposes"] = nil
+				target["purposes"] = nil // null where the member is optional
 			} else {
 				target["note"] = nil
 			}
